@@ -157,9 +157,16 @@ def unit_name_table():
     return t
 
 
-def compare_json(js, hook_out, hook_units):
+def compare_json(js, hook_out, hook_units, flags=None):
     """JSON written next to the report vs the pre-print snapshot: same quantities."""
     fails, n = [], 0
+    # every computed output quantity of every module that took part in the run has its JSON entry (the report prints sections for exactly these)
+    flags = flags or {}
+    active = {'reserv', 'wellbores', 'surfaceplant', 'economics'} | ({'addeconomics'} if flags.get('addons') else set()) | ({'sdacgteconomics'} if flags.get('sdacgt') else set())
+    for mn in sorted(active):
+        missing = sorted(k.split('.', 1)[1] for k in hook_out if k.split('.', 1)[0] == mn and k.split('.', 1)[1] not in js)
+        if missing:
+            fails.append((f'json/quantities_missing/{mn}', f'JSON lacks {len(missing)} output quantities of {mn} that the run computed, e.g. {missing[:3]}'))
     unit_names = unit_name_table()
     flat = {}
     for k, v in hook_out.items():
@@ -191,7 +198,10 @@ def compare_json(js, hook_out, hook_units):
 
 
 def at_hook(m, payload):
-    return {'out': snap.outputs(m), 'units': snap.units(m)}
+    ec = m.economics
+    flags = {'addons': bool(getattr(getattr(ec, 'DoAddOnCalculations', None), 'value', False)),
+             'sdacgt': bool(getattr(getattr(ec, 'DoSDACGTCalculations', None), 'value', False))}
+    return {'out': snap.outputs(m), 'units': snap.units(m), 'flags': flags}
 
 
 def post(obs, payload):
@@ -210,7 +220,7 @@ def post(obs, payload):
         if obs.get('result_after_csv_same') is False:
             fails.append(('csv/export_mutates_result', 'the result object no longer holds what it held before as_csv() was called'))
     if obs.get('json') is not None:
-        jf, n = compare_json(obs['json'], obs['hook']['out'], obs['hook']['units'])
+        jf, n = compare_json(obs['json'], obs['hook']['out'], obs['hook']['units'], obs['hook'].get('flags'))
         fails += jf
         counters['json_quantities_checked'] = n
     else:
